@@ -355,9 +355,9 @@ func isIdentity(p []int) bool {
 func init() {
 	mc.SeqHorizon = 50000000
 	mc.Register(&mc.Property{
-		ID:    "C13",
-		Level: "model_checking",
-		Rule: "explicit-state BFS over write histories on 3 keys (multi-version, tombstoned, re-created); in every state every subset of up to 2 (thorough 3) partition borders drawn from all stored internal keys and well-formed internal keys (stored and absent raw keys x revisions 0,1,existing,absent,max), with the partitions reported in every order, is installed under the real scanner; at every read revision an unlimited List, Count, a whole-interval stream and the concatenation of streams over the advertised partitions are compared with the unpartitioned snapshot (versioned-map model); stream batch size shrunk to 2; every data batch must carry the read revision and every stream exactly one terminator, last",
+		ID:     "C13",
+		Level:  "model_checking",
+		Rule:   "explicit-state BFS over write histories on 3 keys (multi-version, tombstoned, re-created); in every state every subset of up to 2 (thorough 3) partition borders drawn from all stored internal keys and well-formed internal keys (stored and absent raw keys x revisions 0,1,existing,absent,max), with the partitions reported in every order, is installed under the real scanner; at every read revision an unlimited List, Count, a whole-interval stream and the concatenation of streams over the advertised partitions are compared with the unpartitioned snapshot (versioned-map model); stream batch size shrunk to 2; every data batch must carry the read revision and every stream exactly one terminator, last",
 		Assume: []string{"partition layout injected at the storage.KvStorage seam over memkv (thorough: real region splits of the tikv mock cluster)", "single client, default schedule"},
 		Exec: func(j *mc.Job) *mc.JobResult {
 			mb := 2
